@@ -197,6 +197,30 @@ theorem source_newStore_inv (kind : Kind) (t : Listing) (s : Store) (hwf : Listi
 
 example : Gen.newStore .image [([['a']], .file)] = .ok ⟨.image, [(['a'], .notLoaded)]⟩ := by decide
 
+/-! ### `Clone`, `Default`, `PartialEq` of `Store<T>` -/
+
+/-- `Store<T>` has exactly the state the model accounts for; `Clone` takes EVERY field from the original (the clone reads
+    lazily from the same root: the driver's `CL` step continues on the same store value); `Default` makes every field
+    empty (`NEW`) -/
+theorem source_store_traits_match_model :
+    Gen.storeFields = modelledFields ∧
+    Gen.cloneFields = modelledFields.map (fun f => (f, "clone")) ∧
+    Gen.defaultFields = modelledFields.map (fun f => (f, "default")) := by decide
+
+/-- `PartialEq::eq` as the source has it is the model's comparison by keys -/
+theorem source_storeEq_eq_model : Gen.storeEq = storeEq := by
+  funext a b
+  unfold Gen.storeEq storeEq
+  rfl
+
+/-- the comparison is reflexive on every store -/
+theorem store_eq_reflexive (s : Store) : storeEq s s = true := by
+  unfold storeEq
+  simp only [beq_self_eq_true, Bool.true_and, List.all_eq_true]
+  intro e he
+  unfold hasKey
+  exact List.any_eq_true.2 ⟨e, he, by simp⟩
+
 /-! ### the store-writing blocks of `Font::save_impl` (`Generated/StorePlanGen.lean`) -/
 
 /-- the `data` block of `save_impl`, effect by effect (`create_dir_all` of the destination's parent, then the write, per
